@@ -361,6 +361,23 @@ impl Big {
         s
     }
 }
+/// Keys longer than the inline capacity of a key (16 bytes) that agree on a long prefix, with the
+/// difference at unit 16, 17, 32, 33, and with a supplementary-plane character straddling unit 16.
+fn long_key_pool() -> Vec<String> {
+    let mut v = vec![];
+    for n in [7usize, 8, 15, 16, 17, 31, 32, 33] {
+        let p: String = (0..n).map(|i| (b'a' + (i % 26) as u8) as char).collect();
+        v.push(format!("{p}b"));
+        v.push(format!("{p}a"));
+        v.push(p.clone());
+        v.push(format!("{p}\u{10000}"));
+        v.push(format!("{p}\u{e000}"));
+    }
+    v.push("transaction_amount_net".into());
+    v.push("transaction_amount_gross".into());
+    v
+}
+
 fn key_pool() -> Vec<String> {
     // the region where UTF-16 and code point order disagree, plus ordinary keys
     ["", "a", "b", "aa", "A", "\u{e000}", "\u{ffff}", "\u{10000}", "\u{10ffff}", "\u{d7ff}", "\u{e000}\u{10000}", "\u{10000}a", "a\u{e000}", "a\u{1f600}", "\u{fffd}", "z", "é", "\u{20ac}", "1", "10", "\r", "\u{80}"]
@@ -653,6 +670,30 @@ pub fn generate_c09(args: &Args, out: &mut Out) {
     for c in cs {
         out.case(|| format!("k | {{ ${c:x} ${c:x} }}"));
         out.case(|| format!("k | [ $61,{c:x},62 ]"));
+    }
+    // long keys sharing a prefix, in every rotation of a few subsets
+    {
+        let lp = long_key_pool();
+        for start in 0..lp.len() {
+            for n in [2usize, 3, 5] {
+                let ks: Vec<&String> = (0..n).map(|i| &lp[(start + i * 7) % lp.len()]).collect();
+                let mut seen: Vec<&String> = vec![];
+                let ents: Vec<String> = ks
+                    .iter()
+                    .filter(|k| {
+                        if seen.contains(k) {
+                            false
+                        } else {
+                            seen.push(k);
+                            true
+                        }
+                    })
+                    .enumerate()
+                    .map(|(i, k)| format!("${} #{}", hex_str(k), hex_str(&i.to_string())))
+                    .collect();
+                out.case_str(&format!("k | {{ {} }}", ents.join(" ")));
+            }
+        }
     }
     // whole documents
     let nd = if full { 8000 } else { 1500 };
